@@ -71,7 +71,7 @@ package hash
 //@     invariant hpure(params)
 
 // HINCRBY / HINCRBYFLOAT add to a numeric field (an absent field counts as the integer 0; an absent key as the empty hash).
-// The float increment is parsed by strconv.ParseFloat (outside the proof): for HINCRBYFLOAT only the type of the result is decided.
+// The float increment is what strconv.ParseFloat yields, named atof(s) (uninterpreted).
 //@ spec hisfloatcmd(params internal.HandlerFuncParams) bool = lower(harg(params, 0)) == lower("hincrbyfloat")
 //@ spec hfld(params internal.HandlerFuncParams) string = harg(params, 2)
 //@ spec hfold(params internal.HandlerFuncParams) any = old(ashash(hval(params, hkey(params)))[params.Command[2]])
@@ -87,6 +87,10 @@ package hash
 //@   ensures {C14} int-on-int: result1 == nil && !hisfloatcmd(params) && onhash(params) && (hfold(params) == nil || isint(hfold(params))) ==> ishash(hval(params, hkey(params))) && isint(hnow(params)[hfld(params)]) && asint(hnow(params)[hfld(params)]) == (hfold(params) == nil ? 0 : asint(hfold(params))) + atoi(harg(params, 3))
 //@   ensures {C14} int-on-float: result1 == nil && !hisfloatcmd(params) && onhash(params) && isfloat(hfold(params)) ==> ishash(hval(params, hkey(params))) && isfloat(hnow(params)[hfld(params)]) && asfloat(hnow(params)[hfld(params)]) == asfloat(hfold(params)) + float64(atoi(harg(params, 3)))
 //@   ensures {C14} float-type: result1 == nil && hisfloatcmd(params) && onhash(params) ==> ishash(hval(params, hkey(params))) && isfloat(hnow(params)[hfld(params)])
+//@   ensures {C14} badfloat: len(params.Command) == 4 && hisfloatcmd(params) && !atofok(harg(params, 3)) ==> result1 != nil
+//@   ensures {C14} float-created: result1 == nil && hisfloatcmd(params) && !old(hlive(params, hkey(params))) ==> ishash(hval(params, hkey(params))) && (forall f string :: has(hnow(params), f) <==> f == hfld(params)) && isfloat(hnow(params)[hfld(params)]) && asfloat(hnow(params)[hfld(params)]) == atof(harg(params, 3))
+//@   ensures {C14} float-on-int: result1 == nil && hisfloatcmd(params) && onhash(params) && (hfold(params) == nil || isint(hfold(params))) ==> asfloat(hnow(params)[hfld(params)]) == float64(hfold(params) == nil ? 0 : asint(hfold(params))) + atof(harg(params, 3))
+//@   ensures {C14} float-on-float: result1 == nil && hisfloatcmd(params) && onhash(params) && isfloat(hfold(params)) ==> asfloat(hnow(params)[hfld(params)]) == asfloat(hfold(params)) + atof(harg(params, 3))
 //@   ensures {C14} notnumber: len(params.Command) == 4 && onhash(params) && hfold(params) != nil && !isint(hfold(params)) && !isfloat(hfold(params)) ==> result1 != nil
 //@   ensures {C14} otherfields: result1 == nil && onhash(params) ==> (forall f string :: f != hfld(params) ==> (has(hnow(params), f) <==> old(has(ashash(hval(params, hkey(params))), f))) && hnow(params)[f] == old(ashash(hval(params, hkey(params)))[f]))
 //@   ensures {C14} reply-int: result1 == nil && !hisfloatcmd(params) && onhash(params) && (hfold(params) == nil || isint(hfold(params))) ==> bstr(result0) == ":" ++ (itoa((hfold(params) == nil ? 0 : asint(hfold(params))) + atoi(harg(params, 3))) ++ "\r\n")
